@@ -50,9 +50,42 @@ def ensure_engine():
             sys.exit(2)
 
 
+# ---- interception hooks in dependencies: the same patched copy of a dependency's source file is
+# overlaid for the executor and for the native replay, so that a harness can observe an internal
+# hand-over (e.g. the text ParseDSL gives to the lexer) identically on both sides.
+DEP_HOOKS = [
+    {"module": "github.com/antlr4-go/antlr/v4", "file": "input_stream.go",
+     "after": "func NewInputStream(data string) *InputStream {",
+     "insert": "\tif VerifInputHook != nil {\n\t\tVerifInputHook(data)\n\t}\n",
+     "append": "\n// VerifInputHook observes the text handed to the lexer (/verif interception hook, overlay only).\nvar VerifInputHook func(string)\n"},
+]
+_dep_overlay_cache = {}
+
+
+def dep_overlay():
+    """Returns {path in module cache: patched temp file}; generated from the dependency's current source."""
+    if _dep_overlay_cache:
+        return _dep_overlay_cache
+    d = tempfile.mkdtemp(prefix="verif-dephooks-")
+    import atexit
+    atexit.register(lambda: shutil.rmtree(d, ignore_errors=True))
+    for i, h in enumerate(DEP_HOOKS):
+        r = subprocess.run(["go", "list", "-m", "-f", "{{.Dir}}", h["module"]], cwd=REPO_GO, env=GOENV, capture_output=True, text=True)
+        moddir = r.stdout.strip()
+        src = open(os.path.join(moddir, h["file"])).read()
+        if h["after"] not in src:
+            log("ENGINE-ERROR: dependency hook anchor not found in %s" % h["file"])
+            sys.exit(2)
+        src = src.replace(h["after"], h["after"] + "\n" + h["insert"], 1) + h["append"]
+        out = os.path.join(d, "%d_%s" % (i, h["file"]))
+        open(out, "w").write(src)
+        _dep_overlay_cache[os.path.join(moddir, h["file"])] = out
+    return _dep_overlay_cache
+
+
 def run_gosymx(jobs, workdir):
     ensure_engine()
-    spec = {"repo_dir": REPO_GO, "harness_dir": HARNESS, "tags": "verif", "jobs": jobs}
+    spec = {"repo_dir": REPO_GO, "harness_dir": HARNESS, "tags": "verif", "jobs": jobs, "extra_overlay": dep_overlay()}
     sp = os.path.join(workdir, "spec.json")
     op = os.path.join(workdir, "out.json")
     json.dump(spec, open(sp, "w"))
@@ -108,6 +141,7 @@ def native_replay(pkg, witnesses, repeat=1, timeout=900):
         tf = os.path.join(tmp, "replay_test.go")
         open(tf, "w").write(test_src)
         replace[os.path.join(REPO_GO, pkg, "zz_verif_replay_test.go")] = tf
+        replace.update(dep_overlay())
         ov = os.path.join(tmp, "overlay.json")
         json.dump({"Replace": replace}, open(ov, "w"))
         env = dict(GOENV, VERIF_WITNESS_DIR=wdir, VERIF_REPEAT=str(repeat))
@@ -144,7 +178,8 @@ class Outcome:
         self.t0 = time.time()
 
     def finish(self):
-        os.makedirs(os.path.join(VERIF, "evidence"), exist_ok=True)
+        evdir = os.environ.get("VERIF_EVIDENCE_DIR", os.path.join(VERIF, "evidence"))
+        os.makedirs(evdir, exist_ok=True)
         ev = {
             "property_id": self.pid,
             "tier": self.tier,
@@ -158,7 +193,7 @@ class Outcome:
         ev["coverage"]["known_findings_reported"] = self.known
         ev["coverage"]["unconfirmed_counterexamples"] = self.unconfirmed
         ev["coverage"]["inconclusive"] = self.inconclusive
-        json.dump(ev, open(os.path.join(VERIF, "evidence", self.pid + ".json"), "w"), indent=1)
+        json.dump(ev, open(os.path.join(evdir, self.pid + ".json"), "w"), indent=1)
         for k in self.known:
             log("KNOWN-FINDING: property=%s %s" % (self.pid, k))
         for u in self.unconfirmed:
@@ -197,7 +232,7 @@ def match_known(known, pid, harness, label, cls, input_key=None):
 
 
 def save_replay(pid, witness, extra=None):
-    d = os.path.join(VERIF, "replays", pid)
+    d = os.path.join(os.environ.get("VERIF_REPLAY_DIR", os.path.join(VERIF, "replays")), pid)
     os.makedirs(d, exist_ok=True)
     blob = json.dumps(witness, sort_keys=True)
     path = os.path.join(d, hashlib.sha256(blob.encode()).hexdigest()[:16] + ".json")
@@ -372,7 +407,195 @@ def c15(tier):
     out.finish()
 
 
-REGISTRY = {"C15": c15}
+def go_test_overlay(pkg, test_src, env_extra, timeout=600):
+    """Run a generated in-package test natively (overlay) and return (rc, output)."""
+    tmp = tempfile.mkdtemp(prefix="verif-native-")
+    try:
+        tf = os.path.join(tmp, "t_test.go")
+        open(tf, "w").write(test_src)
+        ov = os.path.join(tmp, "overlay.json")
+        json.dump({"Replace": {os.path.join(REPO_GO, pkg, "zz_verif_native_test.go"): tf}}, open(ov, "w"))
+        env = dict(GOENV, **env_extra)
+        r = subprocess.run(["go", "test", "-tags", "verif", "-vet=off", "-count=1", "-overlay", ov, "-run", "^TestVerifNative$",
+                            "-timeout", "%ds" % timeout, "./" + pkg], cwd=REPO_GO, env=env, capture_output=True, text=True)
+        return r.returncode, r.stdout + r.stderr
+    finally:
+        shutil.rmtree(tmp, ignore_errors=True)
+
+
+C18_NATIVE = """package validation
+
+import (
+	"encoding/json"
+	"os"
+	"testing"
+)
+
+func TestVerifNative(t *testing.T) {
+	var in []string
+	data, _ := os.ReadFile(os.Getenv("VERIF_IN"))
+	if err := json.Unmarshal(data, &in); err != nil {
+		t.Fatal(err)
+	}
+	var out []map[string]bool
+	for _, s := range in {
+		out = append(out, map[string]bool{
+			"ValidateObject": ValidateObject(s), "ValidateObjectID": ValidateObjectID(s), "ValidateRelation": ValidateRelation(s),
+			"ValidateUserSet": ValidateUserSet(s), "ValidateUserObject": ValidateUserObject(s), "ValidateUserWildcard": ValidateUserWildcard(s),
+			"ValidateUser": ValidateUser(s), "ValidateRelationshipCondition": ValidateRelationshipCondition(s), "ValidateType": ValidateType(s),
+		})
+	}
+	b, _ := json.Marshal(out)
+	os.WriteFile(os.Getenv("VERIF_OUT"), b, 0o644)
+}
+"""
+
+
+def c18(tier):
+    from atnre import c18 as eb
+    out = Outcome("C18", tier)
+    out.level = "proof"
+    known = load_known()
+    tmp = tempfile.mkdtemp(prefix="verif-C18-")
+    try:
+        res = run_gosymx([{"pkg": "validation", "harness": "VerifC18_Langs", "workers": 4, "timeout_ms": 20000}], tmp)
+        r = res["results"][0]
+        for k, n in (r.get("inconclusive") or {}).items():
+            out.inconclusive.append("VerifC18_Langs: %s (x%d)" % (k, n))
+
+        def native_validate(strings):
+            fin, fout = os.path.join(tmp, "in.json"), os.path.join(tmp, "out.json")
+            json.dump(strings, open(fin, "w"))
+            rc, txt = go_test_overlay("validation", C18_NATIVE, {"VERIF_IN": fin, "VERIF_OUT": fout})
+            if not os.path.exists(fout):
+                out.inconclusive.append("native validator run failed: " + txt[-300:])
+                return [None] * len(strings)
+            return json.load(open(fout))
+
+        try:
+            results, rules, L = eb.run(r, tier, native_validate)
+        except Exception as e:  # noqa
+            out.engine_errors.append("engine B failed: %r" % (e,))
+            out.coverage.update({"obligations": 0, "discharged": 0, "checker_cmd": "z3-new -in", "trusted_base": []})
+            out.finish()
+        discharged = 0
+        samples = []
+        solver_s = 0.0
+        for o in results:
+            solver_s += o["s"]
+            ok = o["verdict"] == o["expect"]
+            if o["verdict"] in ("unknown", "error", "timeout"):
+                out.inconclusive.append("obligation %s: solver answered %s" % (o["name"], o["verdict"]))
+                continue
+            if ok and o["verdict"] == "sat":
+                # the witness must be accepted natively by the validator concerned
+                nat = o.get("native")
+                nm = o["name"]
+                want = None
+                for key, v in (("type-", "ValidateType"), ("relation-", "ValidateRelation"), ("condition-", "ValidateRelationshipCondition"), ("object-", "ValidateObject")):
+                    if nm.startswith(key):
+                        want = v
+                if nm.startswith("nonempty-"):
+                    want = nm[len("nonempty-"):]
+                if nat is None or (want and not nat.get(want)):
+                    out.unconfirmed.append("witness of %s is not accepted natively: %r" % (nm, (o.get("witness") or "")[:60]))
+                    continue
+                discharged += 1
+            elif ok:
+                discharged += 1
+            else:
+                what = "C18/%s expected %s got %s witness=%r native=%s" % (o["name"], o["expect"], o["verdict"], (o.get("witness") or "")[:80], o.get("native"))
+                k = match_known(known, "C18", "VerifC18_Langs", o["name"], "")
+                if k:
+                    out.known.append(k["what"])
+                    discharged += 1
+                    continue
+                if o["verdict"] == "sat" and o.get("native") is None:
+                    out.unconfirmed.append(what)
+                    continue
+                path = save_replay("C18", {"harness": "C18-obligation", "inputs": [], "obligation": o["name"], "witness_string": o.get("witness"), "native": o.get("native")})
+                out.violations.append((what, path))
+            if len(samples) < 6:
+                samples.append({k: o[k] for k in ("name", "expect", "verdict", "s") if k in o})
+            if tier == "thorough" and o.get("scaled_verdicts"):
+                vs = set(v for v in o["scaled_verdicts"].values() if v in ("sat", "unsat"))
+                if len(vs) > 1:
+                    out.engine_errors.append("solvers disagree at scaled bounds on %s: %s" % (o["name"], o["scaled_verdicts"]))
+        # rule strings identical to the JS and Java packages
+        other = eb.extract_rule_strings()
+        pairs = {"RuleType": "type", "RuleRelation": "relation", "RuleCondition": "condition", "RuleID": "id", "RuleObject": "object"}
+        rule_cmp = []
+        for g, k in pairs.items():
+            gv = rules.get(g)
+            for lang in ("js", "java"):
+                ov = other[lang].get(k)
+                same = gv is not None and gv == ov
+                rule_cmp.append({"rule": g, "other": lang, "identical": same})
+                if not same:
+                    what = "C18/rule-strings %s: go=%r %s=%r" % (g, gv, lang, ov)
+                    k2 = match_known(known, "C18", "VerifC18_Langs", "rule-strings", g)
+                    if k2:
+                        out.known.append(k2["what"])
+                    else:
+                        path = save_replay("C18", {"harness": "C18-rule-strings", "inputs": [], "rule": g, "go": gv, lang: ov})
+                        out.violations.append((what, path))
+        nob = len(results)
+        out.coverage.update({
+            "obligations": nob, "discharged": discharged,
+            "checker_cmd": "z3-new -in  (z3 5.1.0; one SMT-LIB2 script per obligation: (assert (str.in_re x L)) (check-sat))",
+            "trusted_base": ["z3 5.1.0 sequence/regex solver", "gosymx SSA interpreter (path enumeration of the validators)", "regexp/syntax parser of the Go toolchain (same parser regexp.MatchString uses)", "RegLan translation in engine/interp/re2smt.go"],
+            "samples": samples, "obligation_results": results, "rule_string_comparison": rule_cmp,
+            "functions_encoded": sorted((r.get("functions") or {}).keys()), "executor_paths": r["paths"],
+            "patterns_computed_by_real_code": sorted((r.get("patterns") or {}).keys()),
+            "bounds": "no bound on string length; code points <= U+2FFFF; cross-solver diff at scaled repetition bounds in the thorough tier",
+            "solver_s": round(solver_s, 2), "exhaustive": discharged == nob,
+        })
+        out.assumptions = ["RE2 semantics of regexp as implemented by regexp/syntax; JS/Java regex dialect differences for identical rule strings are outside",
+                           "whitespace = RE2 \\s = [\\t\\n\\f\\r ]"] + (r.get("stubs_used") or [])
+    finally:
+        shutil.rmtree(tmp, ignore_errors=True)
+    out.finish()
+
+
+def T(pkg, harness, params=None, **kw):
+    j = {"pkg": pkg, "harness": harness, "workers": NCPU, "params": params or {}}
+    j.update(kw)
+    return j
+
+
+def c16(tier):
+    n, d = W(tier, 2, 3), W(tier, 2, 3)
+    jobs = [T("utils", "VerifC16_TypeLine", {"N": n, "D": d}), T("utils", "VerifC16_ExtendedTypeLine", {"N": n, "D": d}),
+            T("utils", "VerifC16_ConditionLine", {"N": n, "D": d}), T("utils", "VerifC16_RelationLine", {"N": n, "D": d}),
+            T("utils", "VerifC16_Column", {"N": 3}),
+            T("transformer", "VerifC03_PrePass", {"N": W(tier, 6, 8)})]
+    out = engine_a_check("C16", tier, jobs,
+                         {"VerifC16_TypeLine": ["type"], "VerifC16_ExtendedTypeLine": ["extend"], "VerifC16_ConditionLine": ["condition"],
+                          "VerifC16_RelationLine": ["relation"], "VerifC16_Column": ["column"], "VerifC03_PrePass": ["lemmas-checked"]},
+                         ["ANTLR token positions with respect to the cleaned text are outside (lexer/parser not encoded)",
+                          "declaration lines follow the layout <indent><keyword> <name><tail>"], "",
+                         bounds={"line lookups": "<= %d declarations, names of length 1..%d over {a,b,_,.,-}, 3 indents, 2-3 tails" % (d + 1, n),
+                                 "pre-pass": "all byte strings of length <= %d" % W(tier, 6, 8)})
+    out.finish()
+
+
+def c14(tier):
+    jobs = [T("transformer", "VerifC14_CmpPair", {"N": W(tier, 2, 3)}), T("transformer", "VerifC14_CmpTriple", {"N": W(tier, 1, 2)})]
+    out = engine_a_check("C14", tier, jobs, {"VerifC14_CmpPair": ["less", "greater", "equal"], "VerifC14_CmpTriple": ["chain"]},
+                         ["names/modules/files over the two-letter alphabet {a,b} (the comparator only compares bytes)"], "",
+                         bounds={"CmpPair": "two keys, every string of length <= %d" % W(tier, 2, 3), "CmpTriple": "three keys, every string of length <= %d" % W(tier, 1, 2)})
+    out.finish()
+
+
+def c03(tier):
+    jobs = [T("transformer", "VerifC03_PrePass", {"N": W(tier, 7, 9)})]
+    out = engine_a_check("C03", tier, jobs, {"VerifC03_PrePass": ["lemmas-checked"]},
+                         ["the ANTLR runtime's conformance to its ATN is outside"], "",
+                         bounds={"pre-pass": "all byte strings of length <= %d" % W(tier, 7, 9)})
+    out.finish()
+
+
+REGISTRY = {"C15": c15, "C18": c18, "C16": c16, "C14": c14, "C03": c03}
 
 
 def main():
